@@ -417,7 +417,57 @@ def t13_wide(run, fx):
             run.ok(rule, "%s: %d operation(s), all on i64" % (path, n))
 
 
+def t13_len2(run, fx):
+    rule = "T13-LEN"
+    b = fx.body("tables::variable_fonts::fvar::FvarTable::<'_>::owned_tuple")
+    if b is None:
+        return run.anchor_missing(rule, "FvarTable::owned_tuple")
+    prov = sym.Prov(b)
+
+    def is_len(t):
+        t = sym.strip(t)
+        if t[0] == "call" and (t[4] or t[1] or "").endswith("::len") and t[2]:
+            r = sym.strip(t[2][0])
+            while r[0] in ("ref", "deref"):
+                r = sym.strip(r[1])
+            return r[0] == "arg" and r[1] == 2
+        return False
+
+    def is_axis_count(t):
+        t = sym.strip(t)
+        while t[0] == "cast":
+            t = sym.strip(t[4])
+        return t[0] == "call" and (t[1] or "").endswith("::axis_count")
+
+    def eq_len(t):
+        t = sym.strip(t)
+        return t[0] == "bin" and t[1] == "Eq" and ((is_len(t[2]) and is_axis_count(t[3])) or (is_len(t[3]) and is_axis_count(t[2])))
+    ok = False
+    ret = sym.strip(prov.local(0))
+    if ret[0] == "call" and "bool" in (ret[1] or "") and (ret[1] or "").endswith(("::then", "::then_some")) and ret[2] and eq_len(ret[2][0]):
+        ok = True
+    else:
+        somes = [bi for bi in range(len(b.blocks)) if b.reachable(bi) and any(
+            st["k"] == "assign" and st["p"]["l"] == 0 and not st["p"]["p"] and st["rv"]["k"] == "agg" and st["rv"].get("vname") == "Some" for st in b.stmts(bi))]
+        for tb, fb, op, x, y, sw in guards.branch_conditions(b, prov):
+            if op in ("Eq", "Ne") and eq_len(("bin", "Eq", x, y)):
+                blk = tb if op == "Eq" else fb
+                if blk is not None and somes and all(b.dominates(blk, sb) for sb in somes):
+                    ok = True
+    if ok:
+        run.ok(rule, "owned_tuple yields a tuple only when values.len() == axis_count()")
+    else:
+        run.fail(rule, "length:owned_tuple", "FvarTable::owned_tuple can yield a tuple without values.len() == axis_count(): a tuple of the wrong length is "
+                 "accepted (truncated or padded) instead of rejected", "%s:%s" % (b.file, b.line))
+
+
 def check(run, fx, tier, floors=True):
+    if floors or fx.body("tables::variable_fonts::fvar::FvarTable::<'_>::owned_tuple") is not None:
+        t13_len2(run, fx)
+    if floors or fx.body("<tables::variable_fonts::fvar::FvarTable<'b> as binary::read::ReadBinary>::read") is not None:
+        # the axis records are addressed with the axisSize the table declares (shared with C12)
+        import rules_C12
+        rules_C12.r12_s(run, fx)
     if floors or fx.body("<tables::Fixed as std::ops::Mul>::mul") is not None:
         t13_wide(run, fx)
     if floors or fx.body("tables::variable_fonts::avar::SegmentMap::<'_>::normalize") is not None:
